@@ -19,6 +19,8 @@ import (
 	"math/rand"
 	"os"
 	"reflect"
+	"runtime/debug"
+	"runtime/pprof"
 	"sort"
 	"strconv"
 	"strings"
@@ -292,31 +294,7 @@ func execPaths[T any](ct *cat, rows []T, split []int) (res [numPaths]pathResult)
 		wopts = []parquet.WriterOption{schema}
 		ropts = []parquet.RowGroupOption{schema}
 	}
-	// the paths run concurrently (they share nothing but the read-only rows);
-	// 7 and 8 start once 1 has produced the deconstructed rows
-	var wg sync.WaitGroup
-	var late []func()
-	run := func(p int, f func() ([]parquet.Row, error)) {
-		start := func() {
-			wg.Add(1)
-			go func() {
-				defer wg.Done()
-				res[p] = guardPath(p, f)
-			}()
-		}
-		if p == 6 || p == 7 {
-			late = append(late, start)
-		} else {
-			start()
-		}
-	}
-	defer func() {
-		wg.Wait()
-		for _, start := range late {
-			start()
-		}
-		wg.Wait()
-	}()
+	run := func(p int, f func() ([]parquet.Row, error)) { res[p] = guardPath(p, f) }
 	// 1: Schema.Deconstruct
 	run(0, func() ([]parquet.Row, error) {
 		out := make([]parquet.Row, n)
@@ -637,6 +615,18 @@ func columnsText(rows [][]entry, ncols int) string {
 		}
 	}
 	return strings.Join(parts, "|")
+}
+
+func sameEntries(a, b []entry) bool {
+	if len(a) != len(b) {
+		return false
+	}
+	for i := range a {
+		if a[i] != b[i] {
+			return false
+		}
+	}
+	return true
 }
 
 // diffKind classifies the first difference of two rows
@@ -1612,6 +1602,9 @@ func checkCase(c *core.Ctx, ct *cat, rows reflect.Value, split []int, wantVm boo
 			continue
 		}
 		for i := 0; i < n; i++ {
+			if !ct.multimap && sameEntries(canon[0][i], canon[p][i]) {
+				continue
+			}
 			a, b := text(canon[0][i]), text(canon[p][i])
 			if a != b {
 				kind := diffKind(canon[0][i], canon[p][i])
@@ -2577,6 +2570,13 @@ func randSplit(rng *rand.Rand, n int) []int {
 func runC03(c *core.Ctx) {
 	c.Res.Rule = "catalogue of compiled struct types (required / `optional` scalars of every kind, pointers, repeated and LIST slices, nested lists, slices and maps of structs, embedded and nested structs, optional groups with repeated fields and vice versa, 3 levels of nesting) x generated batches: every nullable site (pointer, zero-able scalar, slice, map) follows, inverts or ignores a per-row (and per-element) run pattern with runs of 1..130 crossing 64-row words; batch sizes 1..200; each batch goes through the nine ingestion paths (whole batch or split into several Write calls; the typed and the reflection buffer additionally with the rows reversed through Swap before reading); predicate: identical (column, value, r, d) sequences per row on every path, Reconstruct(Deconstruct(v)) = v up to nil/empty; correspondence: Deconstruct streams = model shred_rows (= model shred_batch), model asm of the streams = the value. Plus the null-run sweep: single-word patterns with <= 3 runs at every in-word offset through the typed path on optional fields of every null-index kernel, compared with the pattern and with the model's scan. A case = (type, batch, split); non-trivial = at least 2 rows; distinct by type + JSON of the batch."
 	t0 := time.Now()
+	debug.SetGCPercent(400) // the writers allocate their page buffers anew for every case
+	if pf := os.Getenv("C03_PROF"); pf != "" { // debugging aid
+		if f, err := os.Create(pf); err == nil {
+			pprof.StartCPUProfile(f)
+			defer pprof.StopCPUProfile()
+		}
+	}
 	var cats []*cat
 	for _, ct := range catalogue() {
 		if only := os.Getenv("C03_ONLY"); only != "" && !strings.Contains(","+only+",", ","+ct.name+",") {
